@@ -40,8 +40,11 @@ def _parse_time(value):
 
 
 def _parse_data(value):
-    if not value.startswith('(') and value.endswith(')'):
+    if not (value.startswith('(') and value.endswith(')')):
         raise ValueError('missing parentheses in data message')
+
+    if value == '()':
+        return []
 
     try:
         return [int(byte) for byte in value[1:-1].split(',')]
